@@ -747,6 +747,9 @@
         let mut lex = SYSTEM_LEX.to_vec();
         if !lex.ends_with(b"\n") { lex.push(b'\n'); }
         lex.extend_from_slice("777,8,8,-3000,777,名詞,普通名詞,一般,*,*,*,ナナナナナナ,777,*,A,*,*,*,*\n".as_bytes());
+        // a katakana word whose HEADWORD (half-width) differs from its index key: joined with its neighbours, the merged token's
+        // dictionary-side surface is the concatenation of the merged words' surfaces (ｴ...), not the text it covers
+        lex.extend_from_slice("エ,8,8,3000,ｴ,名詞,普通名詞,一般,*,*,*,エ,エ,*,A,*,*,*,*\n".as_bytes());
         dic.read_lexicon(&lex[..]).unwrap();
         dic.resolve().unwrap();
         dic.compile(&mut cfgb.make_system()).unwrap();
@@ -761,7 +764,7 @@
         if keep_forms { for p in cfg1.path_rewrite_plugins.iter_mut() { if p["class"].as_str().map(|c| c.contains("JoinNumericPlugin")).unwrap_or(false) { p["enableNormalize"] = serde_json::Value::Bool(false); } } }
         let with = JapaneseDictionary::from_cfg(&cfg1).unwrap();
         let numeral_pos = with.grammar().get_part_of_speech_id(&["名詞", "数詞", "*", "*", "*", "*"]);
-        let pieces = ["アイ", "ウ", "ア", "に", "1", "万", ",", "京都", "777"];
+        let pieces = ["アイ", "ウ", "ア", "に", "1", "万", ",", "京都", "777", "エ"];
         let mut texts: Vec<String> = Vec::new();
         let mut frontier = vec![String::new()];
         for _ in 0..5 {
@@ -773,26 +776,29 @@
         let mergeable = |s: &str| s.chars().all(|c| ('\u{30a1}'..='\u{30ff}').contains(&c)) || s.chars().all(|c| c.is_ascii_digit() || "万,.".contains(c) || "〇一二三四五六七八九十百千億兆".contains(c));
         ntexts += texts.len();
         for t in texts.iter() {
-            let run = |jd: &JapaneseDictionary| -> Result<Vec<(usize, usize, u16, u32, String)>, String> {
+            let run = |jd: &JapaneseDictionary| -> Result<Vec<(usize, usize, u16, u32, String, String)>, String> {
                 std::panic::catch_unwind(std::panic::AssertUnwindSafe(|| {
                     let mut tok = StatefulTokenizer::new(jd, Mode::C);
                     tok.reset().push_str(t);
-                    tok.do_tokenize().map(|_| { let mut ms = MorphemeList::empty(jd); ms.collect_results(&mut tok).unwrap(); ms.iter().map(|m| (m.begin(), m.end(), m.part_of_speech_id(), m.word_id().as_raw(), m.normalized_form().to_string())).collect::<Vec<_>>() }).map_err(|e| format!("{:?}", e))
+                    tok.do_tokenize().map(|_| { let mut ms = MorphemeList::empty(jd); ms.collect_results(&mut tok).unwrap(); ms.iter().map(|m| (m.begin(), m.end(), m.part_of_speech_id(), m.word_id().as_raw(), m.normalized_form().to_string(), m.get_word_info().surface().to_string())).collect::<Vec<_>>() }).map_err(|e| format!("{:?}", e))
                 })).unwrap_or_else(|_| Err("panic".to_string()))
             };
             let (a, b) = match (run(&with), run(&without)) { (Ok(a), Ok(b)) => (a, b), (x, y) => { if failures.len() < 20 { failures.push(format!("C14: analysis of {:?} fails: with plugins {:?}, without {:?}", t, x.err(), y.err())); } continue; } };
             let ends_b: Vec<usize> = b.iter().map(|k| k.1).collect();
             for k in a.iter() {
                 if !ends_b.contains(&k.1) { if failures.len() < 20 { failures.push(format!("C14: {:?}: boundary {} exists only with the plugins", t, k.1)); } break; }
-                let inner: Vec<&(usize, usize, u16, u32, String)> = b.iter().filter(|x| x.0 >= k.0 && x.1 <= k.1).collect();
+                let inner: Vec<&(usize, usize, u16, u32, String, String)> = b.iter().filter(|x| x.0 >= k.0 && x.1 <= k.1).collect();
                 if inner.len() == 1 {
                     // not a merge: reported unchanged (a lone numeral may get its normalised form re-issued by the numeral plugin)
                     let x = inner[0];
                     let numeral = mergeable(&t[k.0..k.1]) && t[k.0..k.1].chars().any(|c| c.is_ascii_digit() || c == '万');
-                    if (x.2 != k.2 || x.3 != k.3 || (!numeral && x.4 != k.4)) && failures.len() < 20 { failures.push(format!("C14: {:?}: the token {}..{} is not part of a merge but is reported as {:?} instead of {:?}", t, k.0, k.1, k, x)); }
+                    if (x.2 != k.2 || x.3 != k.3 || (!numeral && x.4 != k.4) || x.5 != k.5) && failures.len() < 20 { failures.push(format!("C14: {:?}: the token {}..{} is not part of a merge but is reported as {:?} instead of {:?}", t, k.0, k.1, k, x)); }
                 } else {
                     // a joined numeral carries the numeral part of speech (the plugin joins only runs that START with a numeral word)
                     if !t[k.0..k.1].chars().all(|c| ('\u{30a1}'..='\u{30ff}').contains(&c)) && Some(k.2) != numeral_pos && failures.len() < 20 { failures.push(format!("C14: {:?} (enableNormalize {}): the joined token {:?} carries part of speech {} instead of the numeral one {:?}", t, !keep_forms, &t[k.0..k.1], k.2, numeral_pos)); }
+                    // the dictionary-side surface of a merged token is the concatenation of the surfaces of the tokens it swallowed
+                    let cat: String = inner.iter().map(|x| x.5.as_str()).collect();
+                    if cat != k.5 && failures.len() < 20 { failures.push(format!("C14: {:?}: the merged token {:?} has the dictionary-side surface {:?}, the merged tokens have {:?}", t, &t[k.0..k.1], k.5, inner.iter().map(|x| x.5.clone()).collect::<Vec<_>>())); }
                     for x in inner.iter() {
                         if !mergeable(&t[x.0..x.1]) && failures.len() < 20 { failures.push(format!("C14: {:?}: the token {:?} ({}..{}) can not be part of a merge, but was swallowed by {:?}", t, &t[x.0..x.1], x.0, x.1, &t[k.0..k.1])); }
                     }
